@@ -520,6 +520,7 @@ def law_schedule(ch):
                 lambda: snapshot_diff(snap, now))
         ch.count("switches", len(sch.switch_log))
         ch.count("switches-in-hot-code", sch.in_hot_at_switch)
+        ch.count("forced-switches-on-blocked-thread", sch.forced)
         ch.label(f"threads={nth}")
         ch.label(f"maxsize={maxsize}")
         ch.mark_nontrivial(sch.in_hot_at_switch >= 1)
